@@ -127,6 +127,16 @@ fn main() {
             };
             vmon::c09::run(seed, &w)
         }
+        "c01-live" | "c03-live" | "c04-live" => {
+            let prop = args.engine[..3].to_uppercase();
+            let w = vmon::live_router::Work {
+                tables: if quick { 16 } else { 200 },
+                probes: if quick { 1600 } else { 4000 },
+                threads: 8,
+            };
+            vmon::live_router::run(&prop, seed, &w)
+        }
+        "c05-live" => vmon::live_router::run_header_policy(seed, if quick { 8 } else { 120 }),
         "c05-exhaustive" => {
             let ns = n as u64;
             sharded(n, move |s| vmon::c05::run_exhaustive(s, ns))
